@@ -22,9 +22,7 @@ import (
 	"github.com/plgd-dev/go-coap/v3/net/client"
 	"github.com/plgd-dev/go-coap/v3/net/responsewriter"
 	"github.com/plgd-dev/go-coap/v3/options"
-	"github.com/plgd-dev/go-coap/v3/tcp"
 	tcpClient "github.com/plgd-dev/go-coap/v3/tcp/client"
-	"github.com/plgd-dev/go-coap/v3/udp"
 	udpClient "github.com/plgd-dev/go-coap/v3/udp/client"
 	"pgregory.net/rapid"
 
@@ -35,6 +33,7 @@ import (
 	"verif/memnet"
 	"verif/peer"
 	"verif/refcodec"
+	"verif/roles"
 	"verif/udpsrv"
 	"verif/wire"
 )
@@ -65,6 +64,8 @@ type Scenario struct {
 	// DefaultLimits: the library's default parallel-request limits (1 in total, 1 per path) and
 	// NSTART 1 instead of generous ones: requests issued by two handlers at once then queue up
 	DefaultLimits bool `json:"defaultLimits,omitempty"`
+	// Role: "" a client connection; "server" the connection a tcp / dtls server creates for an accepted peer
+	Role string `json:"role,omitempty"`
 }
 
 type getter interface {
@@ -184,13 +185,14 @@ func Exec(t *testing.T, sc Scenario, r *evid.Run) *evid.Failure {
 			hlog[idx].done = true
 			mu.Unlock()
 		}
+		stopRole := func() {}
 		limit, nstart := int64(64), uint32(64)
 		if sc.DefaultLimits {
 			limit, nstart = 1, 1
 		}
 		if sc.Transport == "udp" {
 			link := memnet.NewPacketLink(memnet.LinkCfg{LatencyMs: 1})
-			c := endpoints.UDP(link.A, []udp.Option{
+			c, stop, errRole := roles.Packet(sc.Role, link, bubble.Wait, []any{
 				options.WithMessagePool(pool.New(8, 2048)), options.WithPeriodicRunner(tk.Runner()),
 				options.WithBlockwise(false, 6, time.Second), options.WithReceivedMessageQueueSize(sc.Queue),
 				options.WithLimitClientParallelRequest(limit), options.WithLimitClientEndpointParallelRequest(limit),
@@ -201,10 +203,13 @@ func Exec(t *testing.T, sc Scenario, r *evid.Run) *evid.Failure {
 					})
 				})),
 			}...)
-			cc, w = c, wire.UDP(link)
+			if errRole != nil {
+				panic(errRole)
+			}
+			cc, w, stopRole = c, wire.UDP(link), stop
 		} else {
 			link := memnet.NewStreamLink(memnet.StreamCfg{})
-			c, err := endpoints.TCP(link.A, []tcp.Option{
+			c, stop, err := roles.Stream(sc.Role, link, bubble.Wait, []any{
 				options.WithMessagePool(pool.New(8, 2048)), options.WithPeriodicRunner(tk.Runner()),
 				options.WithBlockwise(false, 6, time.Second), options.WithReceivedMessageQueueSize(sc.Queue), options.WithCloseSocket(),
 				options.WithLimitClientParallelRequest(limit), options.WithLimitClientEndpointParallelRequest(limit),
@@ -217,7 +222,7 @@ func Exec(t *testing.T, sc Scenario, r *evid.Run) *evid.Failure {
 			if err != nil {
 				panic(err)
 			}
-			cc, w = c, wire.TCP(link)
+			cc, w, stopRole = c, wire.TCP(link), stop
 		}
 		bubble.Wait()
 		_ = w.FromLib()
@@ -379,6 +384,7 @@ func Exec(t *testing.T, sc Scenario, r *evid.Run) *evid.Failure {
 		bubble.Wait()
 		bad = w.Bad()
 		_ = cc.Close()
+		stopRole()
 		bubble.Wait()
 	})
 	if fail != nil {
@@ -473,6 +479,9 @@ func b2i(b bool) int64 {
 func gen(t *rapid.T) Scenario {
 	sc := Scenario{Transport: rapid.SampledFrom([]string{"udp", "tcp"}).Draw(t, "transport"), Queue: rapid.SampledFrom([]int{0, 1, 16}).Draw(t, "queue")}
 	sc.DefaultLimits = rapid.IntRange(0, 3).Draw(t, "deflimits") == 0
+	if rapid.IntRange(0, 2).Draw(t, "role") == 0 {
+		sc.Role = "server"
+	}
 	n := rapid.IntRange(1, 14).Draw(t, "nev")
 	allPlain := rapid.IntRange(0, 4).Draw(t, "allplain") == 0
 	id, app := 0, 0
@@ -571,6 +580,9 @@ func TestCheck(t *testing.T) {
 				key = string(b)
 			}
 			cls := []string{"dispatch/" + sc.Transport, fmt.Sprintf("dispatch/queue=%d", sc.Queue)}
+			if sc.Role == "server" {
+				cls = append(cls, "dispatch/connection-created-by-a-server")
+			}
 			for _, e := range sc.Events {
 				if e.NoWait {
 					cls = append(cls, "dispatch/burst")
